@@ -51,7 +51,7 @@ RULE = ("G-MAP (vmc/gen_map.py quick generator: roots {x[i]; x[i],y[i]; x[i],y[j
         "1-D roots as lists). quick: every 1-function pipeline x {dict+persist, file_array} x load_intermediate {T,F} x ('all' + every "
         "non-empty subset of the output names); every 2-function pipeline whose second function consumes only `a`, or `a` and a new "
         "1-D root z zipped with a's first axis (first function: one output, no internal axis other than the zipped one; second: no "
-        "internal axis): file_array x {T,F} x ('all' + each single output), dict x {T,F} x 'all'. thorough adds: the rest of the full "
+        "internal axis): file_array x {T,F} x ('all' + each single output), dict x {T,F} x 'all'; the two-input ones again with the second function's inputs in the opposite order (z[..], a[..] -> c[..]) (file_array x {T,F} x 'all', dict x T x 'all'). thorough adds: the rest of the full "
         "product for that 2-function sub-bound (file_array: remaining subsets, dict: singles); every other 2-function pipeline of the "
         "generator with file_array x {T,F} x ('all' + singles); 3-function pipelines = the 2-function sub-bound extended by every h "
         "consuming only `c` (no internal axis on h), file_array x {T,F} x ('all' + singles). non-trivial = distinct (pipeline, "
@@ -391,7 +391,7 @@ def subsets(names, mode):
 def _zip_z(spec) -> bool:
     """second function consumes `a` and a new 1-D root z zipped with a's first axis"""
     g = spec["funcs"][1]
-    if g["params"] != ["a", "z"] or len(spec["roots"].get("z", [])) != 1:
+    if sorted(g["params"]) != ["a", "z"] or len(spec["roots"].get("z", [])) != 1:
         return False
     ax = gen_map.output_axes(spec)
     return bool(ax["a"]) and spec["roots"]["z"][0] == ax["a"][0]
@@ -419,6 +419,8 @@ def groups_for(spec, stage):
         return [("file_array", combos), ("dict", combos)]
     if stage == "2-functions-sub":
         return [("file_array", [(li, s) for li in lis for s in singles]), ("dict", [(li, None) for li in lis])]
+    if stage == "2-functions-swapped":
+        return [("file_array", [(li, None) for li in lis]), ("dict", [(True, None)])]
     if stage == "2-functions-sub-more":  # what "2-functions-sub" left out of the full product
         return [("file_array", [(li, s) for li in lis for s in every if s not in singles]),
                 ("dict", [(li, s) for li in lis for s in singles if s is not None])]
@@ -445,6 +447,8 @@ def specs_for(stage) -> list:
         out = list(gen_map.pipelines(1, "quick"))
     elif stage in ("2-functions-sub", "2-functions-sub-more"):
         out = [s for s in gen_map.pipelines(2, "quick") if len(s["funcs"]) == 2 and in_quick_bound(s)]
+    elif stage == "2-functions-swapped":  # second function's inputs in the opposite order: root before intermediate
+        out = [gen_map.swapped(s, 1) for s in specs_for("2-functions-sub") if len(s["funcs"][1]["params"]) == 2]
     elif stage == "2-functions-rest":
         out = [s for s in gen_map.pipelines(2, "quick") if len(s["funcs"]) == 2 and not in_quick_bound(s)]
     elif stage == "3-functions":
@@ -455,9 +459,9 @@ def specs_for(stage) -> list:
     return out
 
 
-STAGES = {"quick": ["1-function", "2-functions-sub"],
-          "thorough": ["1-function", "2-functions-sub", "2-functions-sub-more", "2-functions-rest", "3-functions"]}
-NCHUNK = {"1-function": 32, "2-functions-sub": 224, "2-functions-sub-more": 256, "2-functions-rest": 1024, "3-functions": 1024}
+STAGES = {"quick": ["1-function", "2-functions-sub", "2-functions-swapped"],
+          "thorough": ["1-function", "2-functions-sub", "2-functions-swapped", "2-functions-sub-more", "2-functions-rest", "3-functions"]}
+NCHUNK = {"1-function": 32, "2-functions-sub": 224, "2-functions-swapped": 96, "2-functions-sub-more": 256, "2-functions-rest": 1024, "3-functions": 1024}
 
 
 def plan(tier, seed):
